@@ -5,7 +5,9 @@ import WpModel.Drive.Repaginate
 import WpModel.Drive.PageCounters
 import WpModel.Drive.TargetText
 import WpModel.Drive.CounterDescriptors
+import WpModel.Drive.ListHints
 
 def main : IO Unit := Wp.Drive.runDriver
   [Wp.Drive.Counters.handle, Wp.Drive.CounterScope.handle, Wp.Drive.Repaginate.handle,
-   Wp.Drive.PageCounters.handle, Wp.Drive.TargetText.handle, Wp.Drive.CounterDescriptors.handle]
+   Wp.Drive.PageCounters.handle, Wp.Drive.TargetText.handle, Wp.Drive.CounterDescriptors.handle,
+   Wp.Drive.ListHints.handle]
